@@ -31,6 +31,7 @@ type Obligation struct {
 }
 
 type Exec struct {
+	zeroOffBases  map[string]bool // cells of captured slice variables kept at offset 0 (closure contracts with `zerooffsets`)
 	resolveLimit  int // >0: while resolving Go variable names at a call site, definitions of the same block before this instruction index count
 	ctx           *Ctx
 	prog          *ssa.Program
